@@ -22,7 +22,7 @@ def main():
     meta = json.load(open(os.path.join(sd, "meta.json")))
     prop = meta["property"]
     patch = os.path.join(sd, "patch.diff")
-    demos = [f for f in glob.glob(os.path.join(sd, "*")) if f.endswith("_test.go") or f.endswith(".go")]
+    demos = [f for f in glob.glob(os.path.join(sd, "**", "*.go"), recursive=True)]
     demo_path = meta.get("demo_path")
     demo_cmd = meta["demo_cmd"]
     log = {"seed": sid, "property": prop}
